@@ -506,7 +506,8 @@ def classify(case, m):
             (w == "32") == (api in ("bp32", "bpd32"))) else "w>32" if int(w) > 32 else "w<=32"
         return "%s/%s/%s" % (api, k, wc)
     if api in ("bp_blk32", "bp_dblk32"):
-        return api + "/n=" + m.get("n", "?")
+        n = m.get("n", "?")
+        return api + ("/w0" if n == "1" else "/w32" if n == "513" else "/w1-31")
     if api in RAW_APIS:
         return api
     if api == "bp_maxbytes":
